@@ -16,6 +16,7 @@
 (*   element root: sequence(ref h {occ}, [box(ref m1 ?)], [e: Base],     *)
 (*                 [group G], [n: Node], [end, any ?]) + [attributeGroup AG]*)
 (*   group G     = sequence(p: int, q: string?)                             *)
+(*   (root may be mixed="true": character data between its children)       *)
 (*   type Node   = sequence(v: int, n: Node?)                               *)
 (* Validity is CONSTRUCTIVE (DocOf builds a valid instance from an index);  *)
 (* the substitution relation is defined twice - as a fixpoint (used by the  *)
@@ -104,7 +105,11 @@ DocOf(s, k) ==
            ELSE << Leaf(T, "end", "z") >> \o
                 (IF k % 2 = 0 THEN <<>> ELSE << Elem("urn:f", "w", NONE, << [name |-> "z", v |-> "9"] >>, "", << Leaf("urn:f", "i", "in") >>) >>)
       attrs == IF s.agrp THEN << [name |-> "a1", v |-> "5"] >> \o (IF k % 2 = 0 THEN << [name |-> "a2", v |-> "two"] >> ELSE <<>>) ELSE <<>>
-  IN [kids |-> heads \o also \o e \o g \o r \o w, attrs |-> attrs, nheads |-> n]
+      kids == heads \o also \o e \o g \o r \o w
+      \* mixed content (complexType mixed="true"): character data before, between and after the children;
+      \* texts[j] precedes child j, texts[Len(kids) + 1] follows the last child ("" = no text there)
+      texts == [j \in 1..(Len(kids) + 1) |-> IF s.mixed /\ (j + k) % 2 = 0 THEN <<"tx", "ty", "tz">>[(j % 3) + 1] ELSE ""]
+  IN [kids |-> kids, attrs |-> attrs, nheads |-> n, texts |-> texts]
 
 \* ---------------------------------------------------------------------------
 \* properties of the construction (checked by TLC on every schema of the universe)
